@@ -306,14 +306,22 @@ theorem idleHandle'_nc (e : El) (s : St) (h : NC s) : NCout (idleHandle' s e).2 
 theorem idleHandle_nc (e : El) (s : St) (h : NC s) : NCout (idleHandle s e).2 ∧ NC (idleHandle s e).1 := by
   unfold idleHandle
   split
-  · exact sendStanza_nc _ s h
   · split
     · exact reject_nc s h
-    · exact ⟨NCout.cons (sig_nc _) NCout.nil, nc_upd h rfl rfl⟩
+    · exact sendStanza_nc _ s h
   · split
-    · exact ⟨NCout.cons (send_nc h _) NCout.nil, h⟩
+    · exact reject_nc s h
+    · split
+      · exact reject_nc s h
+      · exact ⟨NCout.cons (sig_nc _) NCout.nil, nc_upd h rfl rfl⟩
+  · split
+    · exact reject_nc s h
+    · split
+      · exact ⟨NCout.cons (send_nc h _) NCout.nil, h⟩
+      · exact ⟨NCout.nil, h⟩
+  · split
+    · exact reject_nc s h
     · exact ⟨NCout.nil, h⟩
-  · exact ⟨NCout.nil, h⟩
   · unfold idleGuarded
     split
     · exact reject_nc s h
@@ -563,15 +571,6 @@ def PreTls (s : St) : Prop := s.listener = .idle ∨ s.listener = .starttls
 /-- invariant: either nothing can reach the wire in clear, or negotiation has not gone past STARTTLS -/
 def Inv (s : St) : Prop := NC s ∨ PreTls s
 
-/-- **Named hypothesis "nothing slips past the stanza guard before encryption"**: while the link is connected and unencrypted
-the server sends neither an IQ request OUTSIDE jabber:client that one of the client's extensions answers (jabber:iq:version,
-disco#info in a foreign / empty / jabber:server namespace) nor a stream-management `<r/>` — both are processed by the idle
-listener although the stanza guard of fa0779c only looks at jabber:client elements -/
-def noEarlyBypass (s : St) : Ev → Prop
-  | .recv (.xiq .getKnown) => NC s
-  | .recv .smR => NC s
-  | _ => True
-
 /-- **Scope of the property (application side)**: the application itself does not send requests over an unencrypted link and
 calls `connectToServer` only while disconnected (the property quantifies over servers, not over applications) -/
 def appWaits (s : St) : Ev → Prop
@@ -628,28 +627,27 @@ theorem handleStarttls_required (s : St) (f : Features) (hreq : s.cfg.tls = .req
     · simp [ha, hl]
 
 theorem idle_clear (s : St) (e : El) (hreq : s.cfg.tls = .required) (hc : s.conn = .connected)
-    (he : s.encrypted = false) (hl : s.listener = .idle) (h2 : noEarlyBypass s (.recv e)) :
+    (he : s.encrypted = false) (hl : s.listener = .idle) :
     (∀ o ∈ (idleHandle s e).2, o.clearOk) ∧ Inv (idleHandle s e).1 := by
-  have hnnc : ¬ NC s := by intro h; have := h hc; simp [he] at this
+  have hpre : s.preTls := ⟨by simp [he], hreq⟩
+  have hrej : (∀ o ∈ (reject s).2, o.clearOk) ∧ Inv (reject s).1 := by
+    have := reject_connected s hc
+    exact ⟨this.1, Or.inl this.2⟩
   have hsame : Inv s := Or.inr (Or.inl hl)
   unfold idleHandle
   split
-  · exact absurd h2 hnnc
-  · split
-    · have := reject_connected s hc
-      exact ⟨this.1, Or.inl this.2⟩
-    · exact ⟨sig_ok _, Or.inr (Or.inl hl)⟩
-  · exact absurd h2 hnnc
-  · exact ⟨nil_ok, hsame⟩
+  · rw [if_pos hpre]; exact hrej
+  · rw [if_pos hpre]; exact hrej
+  · rw [if_pos hpre]; exact hrej
+  · rw [if_pos hpre]; exact hrej
   · unfold idleGuarded
     split
-    · have := reject_connected s hc
-      exact ⟨this.1, Or.inl this.2⟩
+    · exact hrej
     · rename_i hns
-      have hst : e.isStanza = false := by
-        cases hb : e.isStanza
+      have hst : e.isStreamLevel = true := by
+        cases hb : e.isStreamLevel
+        · exact absurd ⟨by simp [hb], hpre⟩ hns
         · rfl
-        · exact absurd ⟨hb, by simp [he], hreq⟩ hns
       unfold idleHandle'
       split
       · -- features
@@ -669,8 +667,8 @@ theorem idle_clear (s : St) (e : El) (hreq : s.cfg.tls = .required) (hc : s.conn
         exact ⟨this.1, Or.inl this.2⟩
       · exact ⟨sig_ok _, hsame⟩
       all_goals first
-        | (simp [El.isStanza] at hst; done)
-        | (have := reject_connected s hc; exact ⟨this.1, Or.inl this.2⟩)
+        | (simp [El.isStreamLevel] at hst; done)
+        | exact hrej
 
 theorem disconnect_any (s : St) : (∀ o ∈ (disconnectFromHost s).2, o.clearOk) ∧ NC (disconnectFromHost s).1 := by
   by_cases hc : s.conn = .connected
@@ -691,7 +689,7 @@ theorem starttls_clear (s : St) (e : El) (hc : s.conn = .connected) :
     exact ⟨this.1, Or.inl this.2⟩
 
 /-- one step keeps the invariant and sends nothing but stream open / starttls / stream close in clear -/
-theorem step_safe (s : St) (e : Ev) (hreq : s.cfg.tls = .required) (hinv : Inv s) (h2 : noEarlyBypass s e)
+theorem step_safe (s : St) (e : Ev) (hreq : s.cfg.tls = .required) (hinv : Inv s)
     (h3 : appWaits s e) :
     (∀ o ∈ (step s e).2, o.clearOk) ∧ Inv (step s e).1 := by
   by_cases hnc : NC s
@@ -726,12 +724,7 @@ theorem step_safe (s : St) (e : Ev) (hreq : s.cfg.tls = .required) (hinv : Inv s
     | sendIq =>
       have := sendIq_nc s hnc
       exact ⟨allOk_of_NCout this.1, Or.inl this.2⟩
-    | recvWhitespace =>
-      simp only [step]
-      split
-      · exact ⟨nil_ok, Or.inl hnc⟩
-      · have := reject_nc s hnc
-        exact ⟨allOk_of_NCout this.1, Or.inl this.2⟩
+    | recvWhitespace => exact ⟨nil_ok, Or.inl hnc⟩
     | recvPartial =>
       simp only [step]
       split
@@ -767,12 +760,7 @@ theorem step_safe (s : St) (e : Ev) (hreq : s.cfg.tls = .required) (hinv : Inv s
       have hd := onSocketDisconnected_down { s with conn := .disconnected } rfl
       exact ⟨allOk_of_NCout hd.1, Or.inl (nc_of_not_connected hd.2)⟩
     | sendIq => exact absurd h3 hnc
-    | recvWhitespace =>
-      simp only [step]
-      split
-      · exact ⟨nil_ok, Or.inr hpre⟩
-      · have := reject_connected s hc
-        exact ⟨this.1, Or.inl this.2⟩
+    | recvWhitespace => exact ⟨nil_ok, Or.inr hpre⟩
     | recvPartial =>
       simp only [step]
       split
@@ -807,23 +795,23 @@ theorem step_safe (s : St) (e : Ev) (hreq : s.cfg.tls = .required) (hinv : Inv s
             · unfold dispatch
               rcases hpre with hl | hl
               · rw [hl]
-                exact idle_clear s el hreq hc he hl h2
+                exact idle_clear s el hreq hc he hl
               · rw [hl]
                 exact starttls_clear s el hc
 
 /-- the invariant and the property along a whole run -/
-theorem run_safe (evs : List Ev) (s : St) (hreq : s.cfg.tls = .required) (hinv : Inv s) (h2 : Along noEarlyBypass s evs)
+theorem run_safe (evs : List Ev) (s : St) (hreq : s.cfg.tls = .required) (hinv : Inv s)
     (h3 : Along appWaits s evs) :
     ∀ o ∈ (run s evs).2, o.clearOk := by
   induction evs generalizing s with
   | nil => intro o ho; cases ho
   | cons e es ih =>
-    have hs := step_safe s e hreq hinv h2.1 h3.1
+    have hs := step_safe s e hreq hinv h3.1
     intro o ho
     simp only [run] at ho
     rcases List.mem_append.mp ho with ho | ho
     · exact hs.1 o ho
-    · exact ih (step s e).1 (by simpa using hreq) hs.2 h2.2 h3.2 o ho
+    · exact ih (step s e).1 (by simpa using hreq) hs.2 h3.2 o ho
 
 theorem init_inv (cfg : Cfg) : Inv (init cfg) := Or.inl (nc_of_not_connected (by simp [init]))
 
@@ -953,12 +941,20 @@ theorem idleHandle_red (s : St) (e : El) (hc : s.conn = .connected) (h : s.redir
     (idleHandle s e).1.redirect = false := by
   unfold idleHandle
   split
-  · exact sendStanza_red _ _ h
+  · split
+    · exact reject_red s h
+    · exact sendStanza_red _ _ h
+  · split
+    · exact reject_red s h
+    · split
+      · exact reject_red s h
+      · exact h
+  · split
+    · exact reject_red s h
+    · split <;> exact h
   · split
     · exact reject_red s h
     · exact h
-  · split <;> exact h
-  · exact h
   · unfold idleGuarded
     split
     · exact reject_red s h
@@ -1096,9 +1092,7 @@ theorem step_red (s : St) (e : Ev) (h : s.redirect = false) : (step s e).1.redir
     · split <;> exact h
   | recv el => exact recv_red s el h
   | sendIq => exact sendIq_red s h
-  | recvWhitespace => simp only [step]; split
-                      · exact h
-                      · exact reject_red s h
+  | recvWhitespace => exact h
   | recvPartial => simp only [step]; split <;> exact h
   | closeTail => exact disconnectFromHost_red s h
 theorem run_red (evs : List Ev) (s : St) (h : s.redirect = false) : (run s evs).1.redirect = false := by
@@ -1121,7 +1115,7 @@ theorem tls_unavailable_core (s : St) (f : Features) (hreq : s.cfg.tls = .requir
     · simp [hf]
     · by_cases ha : f.tls = .absent <;> simp [ha, hf]
   have hr : step s (.recv (.features f)) = disconnectFromHost s := by
-    simp only [step, recv, hc, hw, hh, dispatch, hl, idleHandle, idleGuarded, El.isStanza, idleHandle', handleFeatures, hst]
+    simp only [step, recv, hc, hw, hh, dispatch, hl, idleHandle, idleGuarded, El.isStreamLevel, St.preTls, idleHandle', handleFeatures, hst]
     simp
   rw [hr]
   simp [disconnectFromHost, socketClose, onSocketDisconnected, closeSession, hc, hred, send, link, he]
